@@ -91,13 +91,7 @@ func read_atom(rdr *tokenReader) (MalType, error) {
 		return int(i), nil
 	case scanner.String:
 		str := (*token)[1 : len(*token)-1]
-		return strings.Replace(
-			strings.Replace(
-				strings.Replace(
-					strings.Replace(str, `\\`, "\u029e", -1),
-					`\"`, `"`, -1),
-				`\n`, "\n", -1),
-			"\u029e", "\\", -1), nil
+		return unescapeString(str), nil
 	case scanner.RawString:
 		if *token == "¬" {
 			return nil, lisperror.NewLispError(errors.New("expected '¬', got EOF"), tokenStruct.GetPosition())
@@ -128,6 +122,36 @@ func read_atom(rdr *tokenReader) (MalType, error) {
 			Cursor: tokenStruct.GetPosition(),
 		}, nil
 	}
+}
+
+// unescapeString undoes the printer's escaping of quoted strings (\\, \" and
+// \n) in one pass, so that no character of the string itself can be mistaken
+// for an escape marker.
+func unescapeString(s string) string {
+	if !strings.Contains(s, `\`) {
+		return s
+	}
+	buf := make([]byte, 0, len(s))
+	for i := 0; i < len(s); i++ {
+		if s[i] == '\\' && i+1 < len(s) {
+			switch s[i+1] {
+			case '\\':
+				buf = append(buf, '\\')
+				i++
+				continue
+			case '"':
+				buf = append(buf, '"')
+				i++
+				continue
+			case 'n':
+				buf = append(buf, '\n')
+				i++
+				continue
+			}
+		}
+		buf = append(buf, s[i])
+	}
+	return string(buf)
 }
 
 func read_list(rdr *tokenReader, start string, end string, placeholderValues *HashMap, ns EnvType) (MalType, error) {
